@@ -222,8 +222,12 @@ func reachesBlock(a, b *ssa.BasicBlock) bool {
 }
 
 // describeCond renders an edge condition in semantic terms for keys.
-func describeCond(e edgeCond) string {
-	ci := core.Cond(e.If.Cond)
+func describeCond(e edgeCond) string { return describeCondWith(e, core.NewResolver()) }
+
+// describeCondWith renders an edge condition under a resolver environment
+// (helper parameters are shown as the caller's values).
+func describeCondWith(e edgeCond, rs *core.Resolver) string {
+	ci := core.CondWith(e.If.Cond, rs)
 	truth := e.Succ == 0
 	if ci.Negate {
 		truth = !truth
@@ -233,7 +237,7 @@ func describeCond(e edgeCond) string {
 	case ci.HasFld:
 		subj = ci.Field.String()
 	default:
-		subj = valDesc(ci.X)
+		subj = valDescWith(ci.X, rs)
 	}
 	switch ci.Kind {
 	case "boolfield":
@@ -264,8 +268,10 @@ func describeCond(e edgeCond) string {
 	return "!cond(" + subj + ")"
 }
 
-func valDesc(v ssa.Value) string {
-	v = core.Strip(v)
+func valDesc(v ssa.Value) string { return valDescWith(v, core.NewResolver()) }
+
+func valDescWith(v ssa.Value, rs *core.Resolver) string {
+	v = core.Strip(rs.R(core.Strip(v)))
 	if f, ok := core.LoadedField(v); ok {
 		return f.String()
 	}
@@ -279,11 +285,11 @@ func valDesc(v ssa.Value) string {
 	case *ssa.Phi:
 		return "phi:" + x.Comment
 	case *ssa.Extract:
-		return "extract:" + valDesc(x.Tuple)
+		return "extract:" + valDescWith(x.Tuple, rs)
 	case *ssa.Lookup:
-		return "lookup:" + valDesc(x.X)
+		return "lookup:" + valDescWith(x.X, rs)
 	case *ssa.BinOp:
-		return "(" + valDesc(x.X) + x.Op.String() + valDesc(x.Y) + ")"
+		return "(" + valDescWith(x.X, rs) + x.Op.String() + valDescWith(x.Y, rs) + ")"
 	case *ssa.UnOp:
 		if x.Op == token.MUL {
 			if a, ok := x.X.(*ssa.Alloc); ok {
@@ -296,7 +302,7 @@ func valDesc(v ssa.Value) string {
 				return "global:" + g.Name()
 			}
 		}
-		return x.Op.String() + valDesc(x.X)
+		return x.Op.String() + valDescWith(x.X, rs)
 	}
 	s := v.Name()
 	if strings.HasPrefix(s, "t") {
